@@ -198,22 +198,29 @@ package policy
 //@ spec decided(policy *State, target string, gitID Hash, att *sslibdsse.Envelope, mergeable bool, rslNeeded bool) bool
 //@ # acceptedNormally(policy, target, object): decided in normal mode (no relaxation possible), whatever authorization was passed
 //@ spec acceptedNormally(policy *State, target string, gitID Hash) bool
+//@ # verifiedBy(policy, name, object): the object was verified against the rule verifier `name` of this policy state
+//@ # (label established by a full verification; the "already verified with this verifier" shortcut may only be
+//@ # taken for a verifier that earned it for the SAME object)
+//@ spec verifiedBy(policy *State, name string, gitID Hash) bool
 //@ define mergeableAsked(opts []verifyGitObjectAndAttestationsOption) bool = exists i :: 0 <= i && i < len(opts) && isOpt(opts[i], "withVerifyMergeable")
 //@ func [C11,C05,C08,C01,C19] verifyGitObjectAndAttestations -> (name, rslNeeded, err)
 //@   requires policy != nil && policy.repository != nil
 //@   requires noNilRules: forall(c, string, forall(j, has(policy.globalRules, c) && 0 <= j && j < len(policy.globalRules[c]) ==> notNil(policy.globalRules[c][j])))
 //@   requires noNilApps: forall(a, string, has(policy.GitHubApps, a) ==> notNil(policy.GitHubApps[a]))
 //@   assigns ghost faults, policy.verifiersCache, fresh(SignatureVerifier.*), fresh(elems *SignatureVerifier), fresh(elems tuf.Principal), fresh(map map[string][]*SignatureVerifier), fresh(set.Set[string].contents), fresh(map map[string]struct{}), fresh(elems gitobject.Option), fresh(elems sslibdsse.Verifier), fresh(elems sigstoreverifieropts.Option), fresh(elems string), fresh(verifyGitObjectAndAttestationsOptions.*), fresh(rsl.ReferenceEntry.*), fresh(rsl.AnnotationEntry.*), fresh(rsl.PropagationEntry.*), fresh(elems Hash), fresh(elems *rsl.AnnotationEntry), fresh(elems rsl.GetLatestReferenceUpdaterEntryOption), fresh(rsl.GetLatestReferenceUpdaterEntryOptions.*)
+//@   requires [C01,C19] trustedIsEarned: forall i :: 0 <= i && i < len(opts) && isOpt(opts[i], "withTrustedVerifier") && optArg(opts[i], string) != "" ==> verifiedBy(policy, optArg(opts[i], string), gitID)
+//@   assumed err == nil && name != "" ==> verifiedBy(policy, name, gitID)
 //@   # the threshold relaxation of mergeability mode is never applied unless the caller asked for that mode
 //@   ensures [C01,C19] relaxOnlyIfAsked: rslNeeded ==> mergeableAsked(opts)
 //@   assumed err == nil && mergeableAsked(opts) ==> decided(policy, target, gitID, authorizationAttestation, true, rslNeeded)
 //@   assumed err == nil && !mergeableAsked(opts) ==> decided(policy, target, gitID, authorizationAttestation, false, rslNeeded)
 //@   assumed err == nil && !mergeableAsked(opts) ==> acceptedNormally(policy, target, gitID)
-//@   ensures [C11] globalThresholdsMet: err == nil && len(verifiers) != 0 && (options.trustedVerifier == "" || name != options.trustedVerifier) ==> forall c string :: has(policy.globalRules, c) ==> rulesOK(policy.globalRules[c], len(policy.globalRules[c]), target, verifiedPrincipalIDs, rslNeeded && options.verifyMergeable)
+//@   ensures [C11,C19] globalThresholdsMet: err == nil && len(verifiers) != 0 && (options.trustedVerifier == "" || name != options.trustedVerifier) ==> forall c string :: has(policy.globalRules, c) ==> rulesOK(policy.globalRules[c], len(policy.globalRules[c]), target, verifiedPrincipalIDs, rslNeeded && options.verifyMergeable)
 //@   loop 1:
 //@     # functional options: a closure made by withVerifyMergeable sets exactly that flag, the other option
 //@     # constructors do not touch it (assumed semantics of calls through function values)
 //@     assumeinv optionSemantics: options != nil && (options.verifyMergeable == (exists i :: 0 <= i && i <= rangeindex && isOpt(opts[i], "withVerifyMergeable")))
+//@     assumeinv trustedSemantics: options.trustedVerifier == "" || (exists i :: 0 <= i && i <= rangeindex && isOpt(opts[i], "withTrustedVerifier") && options.trustedVerifier == optArg(opts[i], string))
 //@   loop 2:
 //@     cut
 //@   loop 3:
@@ -302,6 +309,7 @@ package policy
 //@ define rootAndPrimaryOK(s *State) bool = accepted(rmRootPrincipals(rootOfState(s)), rmRootThreshold(rootOfState(s)), nil, s.Metadata.RootEnvelope) && accepted(rmTargetsPrincipals(rootOfState(s)), rmTargetsThreshold(rootOfState(s)), nil, s.Metadata.TargetsEnvelope)
 //@ define reachedOK(s *State, reached map[string]bool) bool = reached != nil && (forall name string :: has(reached, name) && reached[name] && has(s.Metadata.DelegationEnvelopes, name) ==> signedPerRule(s, name)) && (forall name string :: has(s.Metadata.DelegationEnvelopes, name) ==> has(reached, name))
 //@ func [C02] (*State).Verify -> (err)
+//@   uses ixshift
 //@   requires s != nil && s.Metadata != nil && s.repository != nil
 //@   requires loadedEntryIsReal: isNil(s.loadedEntry) || notNil(s.loadedEntry)
 //@   # what the log reader returns for the propagation query is a propagation entry (its option semantics: C04); the
@@ -365,6 +373,7 @@ package policy
 //@   ensures err == nil ==> entry.GetRefName() == PolicyRef || entry.GetRefName() == PolicyStagingRef
 
 //@ func [C02] LoadState -> (st, err)
+//@   uses ixshift
 //@   requires repo != nil && notNil(requestedEntry)
 //@   # the principals a caller pins are real principals (caller input)
 //@   assumecall SignatureVerifier).Verify :: pinnedPrincipals: noNilPs(options.InitialRootPrincipals)
@@ -398,6 +407,7 @@ package policy
 //@ # the state (so: a rule of that file other than the trailing allow rule), with that rule's own name and threshold
 //@ define consultedRule(s *State, path string, v *SignatureVerifier) bool = v != nil && v.repository == s.repository && !v.verifyExhaustively && (exists role string, g []tuf.Rule :: envOf(s.Metadata, role) != nil && isSuffix(g, rulesM(s, role)) && len(g) > 1 && rMatches(g[0], path) && v.name == rID(g[0]) && v.threshold == rThreshold(g[0]))
 //@ func [C06] (*State).findVerifiersForPathIfProtected -> (vs, err)
+//@   uses ixshift
 //@   requires s != nil && s.Metadata != nil
 //@   assigns fresh(SignatureVerifier.*), fresh(elems *SignatureVerifier), fresh(elems tuf.Principal), fresh(elems tuf.Rule), fresh(elems []tuf.Rule), fresh(elems string), fresh(map map[string]bool), fresh(map map[string]tuf.Principal)
 //@   ensures noPolicy: s.Metadata.TargetsEnvelope == nil ==> err == ErrMetadataNotFound
@@ -416,6 +426,11 @@ package policy
 //@   loop 2:
 //@     # A-wfmeta: rules have names
 //@     assumeinv namedRules: forall r tuf.Rule :: rID(r) != ""
+//@     # C06: each rule taken from the head of a group contributes a verifier exactly when it matches the path,
+//@     # with its own name and threshold (nothing that matches is skipped, nothing that does not is consulted)
+//@     ghost headRule tuf.Rule = nil step currentDelegationGroup[0]
+//@     ghost nBefore int = len(verifiers) step len(verifiers)
+//@     invariant [C06] stepConsultsIffMatches: notNil(headRule) ==> (rMatches(headRule, path) ==> len(verifiers) == nBefore + 1 && verifiers[len(verifiers) - 1].name == rID(headRule) && verifiers[len(verifiers) - 1].threshold == rThreshold(headRule)) && (!rMatches(headRule, path) ==> len(verifiers) == nBefore)
 //@     invariant shape: s.Metadata.TargetsEnvelope != nil && seenRoles != nil && fresh(seenRoles) && allPrincipals != nil && fresh(allPrincipals)
 //@     invariant groups: forall g :: 0 <= g && g < len(groupedDelegations) ==> groupOK(s, groupedDelegations[g])
 //@     invariant current: groupOK(s, currentDelegationGroup)
@@ -440,7 +455,7 @@ package policy
 //@ func ext:internal/attestations.LoadAttestationsForEntry -> (a, err)
 //@   trusted
 //@   assigns ghost faults, fresh(attestations.Attestations.*)
-//@   ensures err == nil ==> a != nil
+//@   ensures err == nil ==> a != nil && attsEntry(a) == entry.GetID()
 
 //@ func [C01,C09] getApproverAttestationAndKeyIDsForIndex -> (att, approvers, err)
 //@   requires policy != nil && policy.repository != nil && repo != nil
@@ -499,11 +514,13 @@ package policy
 //@   loop 2:
 //@     invariant pathsAre: len(paths) == cpLen(commitID) && (forall q :: 0 <= q && q < len(paths) ==> paths[q] == cpAt(commitID, q))
 //@     invariant pathsDone: forall q :: 0 <= q && q <= rangeindex ==> acceptedNormally(policy, fileTarget(cpAt(commitID, q)), commitID)
+//@     invariant shortcutEarned: verifiedUsing == "" || verifiedBy(policy, verifiedUsing, commitID)
 
 //@ # ---- C01: the entry points choose the range and report the tip ----
 //@ # rangeVerified(first, last, ref): label "VerifyRelativeForRef accepted the log between these two entries for ref"
 //@ spec rangeVerified(first Hash, last Hash, ref string) bool
 //@ func [C01,C02,C07,C08] (*PolicyVerifier).VerifyRelativeForRef -> (err)
+//@   uses ixshift
 //@   requires v != nil && v.repo != nil && notNil(v.searcher) && notNil(firstEntry) && notNil(lastEntry) && (v.persistentCacheEnabled ==> v.persistentCache != nil)
 //@   assigns ghost faults, ghost refTip, ghost refSet, ghost objSet, all(State.verifiersCache), all(cache.Persistent.PolicyEntries), all(cache.Persistent.AttestationEntries), all(cache.Persistent.AddedAttestationsBeforeNumber), all(cache.Persistent.LastVerifiedEntryForRef), fresh(elems cache.RSLEntryIndex), fresh(map map[string]cache.RSLEntryIndex), fresh(elems gitstore.TreeEntry), fresh(State.*), fresh(StateMetadata.*), fresh(policyopts.LoadStateOptions.*), fresh(attestations.Attestations.*), fresh(SignatureVerifier.*), fresh(elems *SignatureVerifier), fresh(elems tuf.Principal), fresh(elems tuf.Rule), fresh(map map[string][]*SignatureVerifier), fresh(map map[string]bool), fresh(map map[string]tuf.Principal), fresh(gitinterface.Repository.*), fresh(set.Set[string].contents), fresh(map map[string]struct{}), fresh(elems gitobject.Option), fresh(elems sslibdsse.Verifier), fresh(elems sigstoreverifieropts.Option), fresh(elems string), fresh(verifyGitObjectAndAttestationsOptions.*), fresh(rsl.ReferenceEntry.*), fresh(rsl.AnnotationEntry.*), fresh(rsl.PropagationEntry.*), fresh(elems Hash), fresh(elems *rsl.AnnotationEntry), fresh(elems rsl.GetLatestReferenceUpdaterEntryOption), fresh(rsl.GetLatestReferenceUpdaterEntryOptions.*), fresh(elems verifyGitObjectAndAttestationsOption), fresh(elems rsl.ReferenceUpdaterEntry), fresh(map map[string][]*rsl.AnnotationEntry), fresh(elems *rsl.ReferenceEntry)
 //@   assumed err == nil ==> rangeVerified(firstEntry.GetID(), lastEntry.GetID(), target)
@@ -515,22 +532,27 @@ package policy
 //@     ghost attBefore *attestations.Attestations = currentAttestations step currentAttestations
 //@     ghost head rsl.ReferenceUpdaterEntry = nil step ite(isNil(invalidEntry), entries[0], nil)
 //@     ghost wasInvalid rsl.ReferenceUpdaterEntry = nil step invalidEntry
-//@     invariant shape: (forall i :: 0 <= i && i < len(entries) ==> notNil(entries[i])) && (forall k string :: has(annotations, k) ==> rsl.noNil(annotations[k])) && (currentPolicy != nil ==> stateUsable(currentPolicy)) && (isNil(invalidEntry) || (notNil(invalidEntry) && typeIs(invalidEntry, *rsl.ReferenceEntry)))
+//@     ghost att0 *attestations.Attestations = currentAttestations step att0
+//@     invariant shape: (forall i :: 0 <= i && i < len(entries) ==> notNil(entries[i])) && (forall k string :: has(annotations, k) ==> noNil(annotations[k])) && (currentPolicy != nil ==> stateUsable(currentPolicy)) && (isNil(invalidEntry) || (notNil(invalidEntry) && typeIs(invalidEntry, *rsl.ReferenceEntry)))
 //@     invariant [C08] refsKept: forall r string :: refTip[r] == old(refTip[r]) && refSet[r] == old(refSet[r])
 //@     # C01: an entry that needs a decision leaves the head of the queue only decided under the policy and attestation
 //@     # state in force when it was met - or as the revoked violation whose repair the next iteration must find (C07)
-//@     invariant [C01,C07] entryDecidedOrRevoked: needsDecision(head) ==> (isNil(invalidEntry) ==> polBefore != nil && entryOK(polBefore, attBefore, as(head, *rsl.ReferenceEntry))) && (notNil(invalidEntry) ==> invalidEntry == head && rsl.skippedBy(as(head, *rsl.ReferenceEntry), annsOf(annotations, as(head, *rsl.ReferenceEntry))))
+//@     invariant [C01,C07] entryDecidedOrRevoked: needsDecision(head) ==> (isNil(invalidEntry) ==> polBefore != nil && entryOK(polBefore, attBefore, as(head, *rsl.ReferenceEntry))) && (notNil(invalidEntry) ==> invalidEntry == head && skippedBy(as(head, *rsl.ReferenceEntry), annsOf(annotations, as(head, *rsl.ReferenceEntry))))
 //@     # C02: the policy in force changes only to the state of a policy entry met in the walk, accepted by the state it replaces
 //@     invariant [C01,C02] policySwitchVerified: currentPolicy != polBefore ==> currentPolicy != nil && notNil(head) && currentPolicy.loadedEntry == head && (polBefore == nil || acceptedBy(polBefore, currentPolicy))
+//@     # C09: only the attestation state recorded in the log before an entry is used for it: the walk starts from the
+//@     # attestations applicable at the FIRST entry and switches only to the state of an attestations entry it meets
+//@     invariant [C09,C01] initialAttestations: att0 == nil || attsEntry(att0) == attEntryFor(firstEntry.GetID())
+//@     invariant [C09,C01] attestationSwitch: currentAttestations != attBefore ==> currentAttestations != nil && notNil(head) && attsEntry(currentAttestations) == head.GetID()
 //@     invariant [C01] onlyRecoveryEndsRecovery: notNil(wasInvalid) ==> isNil(invalidEntry) && isNil(head)
 //@   loop 2:
 //@     ghost e0 []rsl.ReferenceUpdaterEntry = entries step e0
-//@     invariant shape: notNil(invalidEntry) && typeIs(invalidEntry, *rsl.ReferenceEntry) && !fixed && (forall i :: 0 <= i && i < len(entries) ==> notNil(entries[i])) && (forall i :: 0 <= i && i < len(newEntryQueue) ==> notNil(newEntryQueue[i])) && (forall k string :: has(annotations, k) ==> rsl.noNil(annotations[k])) && (currentPolicy != nil ==> stateUsable(currentPolicy)) && (forall i :: 0 <= i && i < len(invalidIntermediateEntries) ==> invalidIntermediateEntries[i] != nil)
+//@     invariant shape: notNil(invalidEntry) && typeIs(invalidEntry, *rsl.ReferenceEntry) && !fixed && (forall i :: 0 <= i && i < len(entries) ==> notNil(entries[i])) && (forall i :: 0 <= i && i < len(newEntryQueue) ==> notNil(newEntryQueue[i])) && (forall k string :: has(annotations, k) ==> noNil(annotations[k])) && (currentPolicy != nil ==> stateUsable(currentPolicy)) && (forall i :: 0 <= i && i < len(invalidIntermediateEntries) ==> invalidIntermediateEntries[i] != nil)
 //@     invariant [C08] refsKept: forall r string :: refTip[r] == old(refTip[r]) && refSet[r] == old(refSet[r])
 //@     invariant remaining: smt("(and (= (slc_arr %1) (slc_arr %2)) (= (+ (slc_off %1) (slc_len %1)) (+ (slc_off %2) (slc_len %2))) (>= (slc_off %1) (slc_off %2)))", bool, entries, e0)
 //@     # C07: every entry for the affected reference passed over while looking for the repair is marked skipped, or is
 //@     # remembered as an unrevoked intermediate (which makes verification fail)
-//@     invariant [C07] passedOverAreRevoked: forall i :: 0 <= i && i < len(e0) - len(entries) && typeIs(e0[i], *rsl.ReferenceEntry) && as(e0[i], *rsl.ReferenceEntry).RefName == invalidEntry.GetRefName() ==> rsl.skippedBy(as(e0[i], *rsl.ReferenceEntry), annsOf(annotations, as(e0[i], *rsl.ReferenceEntry))) || (exists q :: 0 <= q && q < len(invalidIntermediateEntries) && invalidIntermediateEntries[q] == as(e0[i], *rsl.ReferenceEntry))
+//@     invariant [C07] passedOverAreRevoked: forall i :: 0 <= i && i < len(e0) - len(entries) && typeIs(e0[i], *rsl.ReferenceEntry) && as(e0[i], *rsl.ReferenceEntry).RefName == invalidEntry.GetRefName() ==> skippedBy(as(e0[i], *rsl.ReferenceEntry), annsOf(annotations, as(e0[i], *rsl.ReferenceEntry))) || (exists q :: 0 <= q && q < len(invalidIntermediateEntries) && invalidIntermediateEntries[q] == as(e0[i], *rsl.ReferenceEntry))
 //@     # C07: entries for other references (and propagation entries) met on the way are kept for processing afterwards
 //@     invariant [C07] othersKept: forall i :: 0 <= i && i < len(e0) - len(entries) && (e0[i].GetRefName() != invalidEntry.GetRefName() || typeIs(e0[i], *rsl.PropagationEntry)) ==> (exists q :: 0 <= q && q < len(newEntryQueue) && newEntryQueue[q] == e0[i])
 //@ func ext:pkg/rsl.GetFirstReferenceUpdaterEntryForRef -> (e, anns, err)
@@ -590,6 +612,7 @@ package policy
 //@   loop 2:
 //@     invariant pathsAre: len(paths) == cpLen(commitID) && (forall q :: 0 <= q && q < len(paths) ==> paths[q] == cpAt(commitID, q))
 //@     invariant pathsDone: forall q :: 0 <= q && q <= rangeindex ==> acceptedNormally(currentPolicy, fileTarget(cpAt(commitID, q)), commitID)
+//@     invariant shortcutEarned: verifiedUsing == "" || verifiedBy(currentPolicy, verifiedUsing, commitID)
 
 //@ func [C19] (*PolicyVerifier).VerifyMergeable -> (needed, err)
 //@   requires v != nil && v.repo != nil && notNil(v.searcher)
@@ -609,14 +632,18 @@ package policy
 //@   trusted
 //@   assigns ghost faults
 //@   ensures err == nil ==> notNil(e)
+//@ # attEntryFor(id): the attestations entry applicable at the entry id (latest one recorded before it) - the searcher's
+//@ # answer is assumed to be it (searcher refinement: C08); attsEntry(a): the log entry an attestation state was loaded from
+//@ spec attEntryFor(id Hash) Hash
+//@ spec attsEntry(a *attestations.Attestations) Hash
 //@ func ext:(internal/policy.searcher).FindAttestationsEntryFor -> (e, err)
 //@   trusted
 //@   assigns ghost faults
-//@   ensures err == nil ==> notNil(e)
+//@   ensures err == nil ==> notNil(e) && e.GetID() == attEntryFor(p0.GetID())
 //@ func ext:pkg/rsl.GetReferenceUpdaterEntriesInRangeForRef -> (es, anns, err)
 //@   trusted
 //@   assigns ghost faults, fresh(rsl.ReferenceEntry.*), fresh(rsl.AnnotationEntry.*), fresh(rsl.PropagationEntry.*), fresh(elems Hash), fresh(elems *rsl.AnnotationEntry), fresh(elems rsl.ReferenceUpdaterEntry), fresh(map map[string][]*rsl.AnnotationEntry)
-//@   ensures err == nil ==> (forall i :: 0 <= i && i < len(es) ==> notNil(es[i])) && (forall k string :: has(anns, k) ==> rsl.noNil(anns[k]))
+//@   ensures err == nil ==> (forall i :: 0 <= i && i < len(es) ==> notNil(es[i])) && (forall k string :: has(anns, k) ==> noNil(anns[k]))
 //@ func ext:(*internal/cache.Persistent).InsertPolicyEntryNumber
 //@   trusted
 //@   assigns all(cache.Persistent.PolicyEntries), fresh(elems cache.RSLEntryIndex)
